@@ -355,6 +355,16 @@ def _default_model():
     return _DEFAULT_MODEL[1]
 
 
+def with_default(model):
+    """A call model that answers `model` first and the std combinators otherwise."""
+    def m(call, argv):
+        r = model(call, argv)
+        if r is not None:
+            return r
+        return _default_model()(call, argv) if DEFAULT_FACTS[0] is not None else None
+    return m
+
+
 class Sccp:
     """Forward propagation of known constants from a seed.
 
